@@ -128,6 +128,22 @@ func main() {
 			ents = append(ents, ent{d + ".<asm>@" + filepath.Base(f), filepath.Base(f), fmt.Sprintf("%x", sum[:10])})
 		}
 	}
+	// the module's dependency closure: go.mod and go.sum verbatim (a replaced or re-versioned dependency — sha3,
+	// blake512, x/sys/cpu — changes them), and the presence of a vendor directory (which would override them)
+	for _, f := range []string{"go.mod", "go.sum"} {
+		raw, err := os.ReadFile(filepath.Join(repo, f))
+		if err != nil {
+			die("read %s: %v", f, err)
+		}
+		sum := sha256.Sum256(raw)
+		ents = append(ents, ent{"module.<deps>@" + f, f, fmt.Sprintf("%x", sum[:10])})
+	}
+	vend := "absent"
+	if st, err := os.Stat(filepath.Join(repo, "vendor")); err == nil && st.IsDir() {
+		vend = "present"
+	}
+	vsum := sha256.Sum256([]byte(vend))
+	ents = append(ents, ent{"module.<deps>@vendor", "vendor", fmt.Sprintf("%x", vsum[:10])})
 	// duplicate keys (init functions, build variants): qualify with the file name
 	count := map[string]int{}
 	for _, e := range ents {
@@ -135,7 +151,7 @@ func main() {
 	}
 	seq := map[string]int{}
 	for i := range ents {
-		if count[ents[i].key] > 1 && !strings.Contains(ents[i].key, "<decls>") {
+		if count[ents[i].key] > 1 && !strings.Contains(ents[i].key, "<decls>") && !strings.Contains(ents[i].key, "<deps>") {
 			ents[i].key += "@" + ents[i].file
 			seq[ents[i].key]++
 			if seq[ents[i].key] > 1 {
